@@ -39,6 +39,7 @@ FLOORS = {
     "thorough": {"update_checks": 2500, "weight_checks": 2500, "roundtrip_checks": 1500, "moves_with_cond_switch": 50, "moves_args_changed": 1000},
 }
 TIMEOUT_S = {"quick": 1500, "thorough": 5400}
+CLEAR_CACHES_EVERY = {"quick": 0, "thorough": 6}  # see lib/worker.py
 N_CASES = {"quick": 64, "thorough": 640}
 FAMILY_CYCLE = ["mixed", "builtin", "probe", "bare"]
 
